@@ -120,6 +120,53 @@ func Main(args []string) int {
 			rep.Samples = append(rep.Samples, Finding{"sample", key, fmt.Sprintf("dir %q journal fork %q", dir, jfork)})
 		}
 	}
+	// nested forks: the journal name of the pair (key, other) and injectivity over all pairs
+	if len(args) > 1 {
+		nf, err := os.Open(args[1])
+		if err != nil {
+			fmt.Fprintln(os.Stderr, err)
+			return 2
+		}
+		defer nf.Close()
+		type nrow struct {
+			Key   []string `json:"key"`
+			Other []string `json:"other"`
+			JPair []string `json:"jpair"`
+		}
+		var keys []string
+		ns := bufio.NewScanner(nf)
+		ns.Buffer(make([]byte, 1<<20), 1<<26)
+		for ns.Scan() {
+			var r nrow
+			if err := json.Unmarshal(ns.Bytes(), &r); err != nil {
+				fmt.Fprintln(os.Stderr, "bad nested row", err)
+				return 2
+			}
+			k, o := j(r.Key), j(r.Other)
+			keys = append(keys, k)
+			id := "fork_" + core.VerifMakeKeySafe(k) + "/" + "fork_" + core.VerifMakeKeySafe(o)
+			if jn := core.VerifEncodeJournalName(id); jn != j(r.JPair) && len(rep.Drift) < 20 {
+				rep.Drift = append(rep.Drift, Finding{"nested-journal-encoding-differs-from-model", k + " , " + o,
+					fmt.Sprintf("real %q model %q", jn, j(r.JPair))})
+			}
+		}
+		seen := map[string][2]string{}
+		for _, a := range keys {
+			for _, b := range keys {
+				id := "fork_" + core.VerifMakeKeySafe(a) + "/" + "fork_" + core.VerifMakeKeySafe(b)
+				jn := core.VerifEncodeJournalName(id)
+				rep.Names++
+				if o, ok := seen[jn]; ok && len(rep.Violations) < 20 {
+					rep.Violations = append(rep.Violations, Finding{"nested-journal-name-collision", a + " , " + b,
+						fmt.Sprintf("nested forks (%q, %q) and (%q, %q) both get journal fork name %q", o[0], o[1], a, b, jn)})
+				}
+				seen[jn] = [2]string{a, b}
+				if strings.ContainsAny(jn, "./") && len(rep.Violations) < 20 {
+					rep.Violations = append(rep.Violations, Finding{"journal-name-not-safe", a + " , " + b, jn})
+				}
+			}
+		}
+	}
 	// array forks
 	for _, i := range []int{0, 1, 9, 10, 11, 100} {
 		id, err := core.VerifArrayForkName(i)
